@@ -211,6 +211,8 @@ static size_t g_rl_size;
 static char *g_rl_buf;
 static ssize_t g_rl_ret;
 static bool g_rl_room;
+static size_t g_rl_k;		/* witness byte of the link target */
+static uint8_t g_rl_v;
 
 ssize_t readlinkat(int fd, const char *path, char *buf, size_t bufsiz)
 {
@@ -230,7 +232,9 @@ ssize_t readlinkat(int fd, const char *path, char *buf, size_t bufsiz)
 		/* witness byte of the target written by the host */
 		size_t k = verif_nd_size("readlinkat.k");
 		VERIF_ASSUME(k < (size_t)r);
-		((unsigned char *)buf)[k] = verif_nd_u8("readlinkat.v");
+		g_rl_k = k;
+		g_rl_v = verif_nd_u8("readlinkat.v");
+		((unsigned char *)buf)[k] = g_rl_v;
 	}
 	g_rl_ret = r;
 	return r;
@@ -284,6 +288,8 @@ static void setup_iterator(void)
 	g_rl_size = 0;
 	g_rl_ret = 0;
 	g_rl_room = false;
+	g_rl_k = 0;
+	g_rl_v = 0;
 	g_fdopendir_calls = 0;
 
 	memset(&g_it, 0, sizeof(g_it));
@@ -436,6 +442,9 @@ void harness(void)
 		return;
 	}
 	VERIF_ASSERT(ret == 0 && out == g_rl_buf && out[g_rl_ret] == '\0',
+		     "C11.unix.read_link.result");
+	/* every byte the host wrote is still there (witness byte) */
+	VERIF_ASSERT(g_rl_ret == 0 || ((unsigned char *)out)[g_rl_k] == g_rl_v,
 		     "C11.unix.read_link.result");
 	VERIF_COVER(g_rl_ret == 0);
 	VERIF_COVER(g_rl_ret > 0 && (size_t)g_rl_ret == g_rl_size);
